@@ -592,6 +592,7 @@ func (v *Verifier) needsFrame(c *Contract) bool {
 	if v.modularCallees == nil {
 		v.modularCallees = map[*Contract]bool{}
 		seen := map[*ssa.Function]bool{}
+		var top *Contract
 		var walk func(fn *ssa.Function)
 		walk = func(fn *ssa.Function) {
 			if fn == nil || seen[fn] {
@@ -613,6 +614,10 @@ func (v *Verifier) needsFrame(c *Contract) bool {
 						}
 					}
 					if gc := v.contractFor(g); gc != nil && !gc.Inline && !gc.Abstract {
+						if top != nil && g.Pkg != nil && has(top.InlineCalls, g.RelString(g.Pkg.Pkg)) {
+							walk(g) // executed in place by this caller (inline-calls)
+							continue
+						}
 						v.modularCallees[gc] = true
 						continue
 					}
@@ -629,6 +634,8 @@ func (v *Verifier) needsFrame(c *Contract) bool {
 			if oc.Abstract {
 				continue
 			}
+			top = oc
+			seen = map[*ssa.Function]bool{}
 			walk(v.findFunction(oc.PkgPath, oc.Func))
 		}
 	}
